@@ -194,7 +194,7 @@ def check_props(ctx, name=None):
         m = re.search(r'\* Axioms:\s*(.*?)\n\s*\n', outc, flags=re.S)
         ax = ' '.join(m.group(1).split()) if m else 'unparsed'
         ctx.coverage['coqchk'] = {'exit': rcc, 'axioms': ax,
-                                  'type_in_type': 'type-in-type: <none>' in outc.replace('\n', ' ').replace('  ', ' '),
+                                  'no_type_in_type': 'type-in-type: <none>' in outc.replace('\n', ' ').replace('  ', ' '),
                                   'cmd': 'coqchk -silent -o -R coq AL AL.Props.' + name}
         ctx.assumptions.append('coqchk AL.Props.%s: exit %d, axioms: %s' % (name, rcc, ax))
         if rcc != 0:
